@@ -23,10 +23,10 @@ static void enc_mode(const char *fam, int alg, int pat, int maxlen)
         else if (memcmp(c, c2, clen)) hx_fail(kb, "not deterministic: two calls with equal inputs differ adlen=%d mlen=%d", a, l);
         if (!hx_buf_ok(c, clen)) hx_fail(kb, "wrote outside output buffer adlen=%d mlen=%d", a, l);
         /* the C++ classes of the same modes, keyed by set_key and by the key constructor */
-        for (int path = 0; path < 2; path++) {
-            int r2 = path ? cpp_encrypt_ctor(isap ? 3 : 2, alg, key, nonce, c2, m, l, HX_OPT(ad, a), a) : cpp_encrypt(isap ? 3 : 2, alg, key, nonce, c2, m, l, HX_OPT(ad, a), a);
+        for (int path = 0; path < 3; path++) {
+            int r2 = path == 2 ? cpp_encrypt_rekey(isap ? 3 : 2, alg, key, nonce, c2, m, l, HX_OPT(ad, a), a) : path ? cpp_encrypt_ctor(isap ? 3 : 2, alg, key, nonce, c2, m, l, HX_OPT(ad, a), a) : cpp_encrypt(isap ? 3 : 2, alg, key, nonce, c2, m, l, HX_OPT(ad, a), a);
             hx_stat("evaluations", 1);
-            if (r2 != (int)clen || memcmp(c2, e, clen)) { char k2[96]; snprintf(k2, sizeof k2, "%s:cpp-%s", kb, path ? "key-constructor" : "set_key"); hx_fail(k2, "C++ class result (%d) differs from the documented construction adlen=%d mlen=%d", r2, a, l); }
+            if (r2 != (int)clen || memcmp(c2, e, clen)) { char k2[96]; snprintf(k2, sizeof k2, "%s:cpp-%s", kb, path == 2 ? "re-key" : path ? "key-constructor" : "set_key"); hx_fail(k2, "C++ class result (%d) differs from the documented construction adlen=%d mlen=%d", r2, a, l); }
             if (!hx_buf_ok(c2, clen)) hx_fail(kb, "C++ class wrote outside output buffer adlen=%d mlen=%d", a, l);
         }
         /* the reference's ciphertext must decrypt through the library */
